@@ -25,7 +25,7 @@ done
 (cd harness && cp /repo/go.sum . 2>/dev/null; go build -o harness .)
 # 3. translator validation: the translator's output extracted to OCaml, and a harness that calls
 #    the real pool code through the verif-tagged hooks (a failure here only disables that step)
-for k in Pool:pool Locks:lock IntPool:intpool BitSet:bitset Paged:paged Res:res; do
+for k in Pool:pool Locks:lock Locks64:lock64 IntPool:intpool BitSet:bitset Paged:paged Res:res; do
   E=${k%%:*}; n=${k##*:}
   (cd ocaml && rm -f tvd_$n gm_$n.ml gm_$n.mli \
      && timeout 600 coqc -Q ../coq/theories Arche ../coq/theories/Extract/ExtractGo$E.v >/dev/null 2>&1 \
@@ -34,4 +34,5 @@ for k in Pool:pool Locks:lock IntPool:intpool BitSet:bitset Paged:paged Res:res;
      && ocamlfind ocamlopt -w -a gm_$n.mli gm_$n.ml tvd_$n.ml -o tvd_$n) || { echo "TV DRIVER $n NOT BUILT"; rm -f ocaml/tvd_$n; }
 done
 (cd tv_harness && cp /repo/go.sum . 2>/dev/null; go build -tags verif -o tv_harness .) || { echo "TV HARNESS NOT BUILT"; rm -f tv_harness/tv_harness; }
+(cd tv_harness && go build -tags "verif tiny" -o tv_harness_tiny .) || { echo "TV HARNESS (tiny) NOT BUILT"; rm -f tv_harness/tv_harness_tiny; }
 echo "build ok"
